@@ -177,10 +177,21 @@ Theorem C10_pin_tables_compile :
   (if cli_validate_compiled then true else false) && (if cli_write_compiled then true else false) = true.
 Proof. exact pin_tables_compile. Qed.
 
+(* schema resolution is re-checked on every call, never remembered: the decision table of resolve_hermetic_standard
+   (return the cache slot only when the digest computed from the file IN THIS CALL equals the pinned one), the definitions
+   of its locals (no other effect), and: no resolver function is decorated or mentions module-level state other than
+   SCHEMA_NAME_PATTERN / BUILTIN_SCHEMA_DEFINITIONS (expected values: Tools/EnvelopePins.v) *)
+Theorem C10_pin_hermetic_rows : status_hermetic_rows = hermetic_rows_expected.
+Proof. exact pin_hermetic_rows. Qed.
+Theorem C10_pin_hermetic_defs : status_hermetic_defs = hermetic_defs_expected.
+Proof. exact pin_hermetic_defs. Qed.
+Theorem C10_pin_resolver_state : status_resolver_state = resolver_state_expected.
+Proof. exact pin_resolver_state. Qed.
+
 (* ---- source-text pins (generated by harness/pinsets.py) ---- *)
 (* every function of these modules is, text for text (comments and docstrings excluded), the one the models of this
    property were written against and validated against: harness/translate/srcdigest_t.py, Src/Pin_*.v *)
-From OV Require Import Gen.SrcDigestGen Src.Pin_mcp_validate Src.Pin_mcp_write Src.Pin_mcp_eject Src.Pin_mcp_compile_grammar Src.Pin_core_validator Src.Pin_schemas_loader.
+From OV Require Import Gen.SrcDigestGen Src.Pin_mcp_validate Src.Pin_mcp_write Src.Pin_mcp_eject Src.Pin_mcp_compile_grammar Src.Pin_core_validator Src.Pin_schemas_loader Src.Pin_core_hydrator.
 Theorem C10_pin_source_text :
-  src_mcp_validate_pinned /\ src_mcp_write_pinned /\ src_mcp_eject_pinned /\ src_mcp_compile_grammar_pinned /\ src_core_validator_pinned /\ src_schemas_loader_pinned.
-Proof. exact (conj src_mcp_validate_pinned_ok (conj src_mcp_write_pinned_ok (conj src_mcp_eject_pinned_ok (conj src_mcp_compile_grammar_pinned_ok (conj src_core_validator_pinned_ok src_schemas_loader_pinned_ok))))). Qed.
+  src_mcp_validate_pinned /\ src_mcp_write_pinned /\ src_mcp_eject_pinned /\ src_mcp_compile_grammar_pinned /\ src_core_validator_pinned /\ src_schemas_loader_pinned /\ src_core_hydrator_pinned.
+Proof. exact (conj src_mcp_validate_pinned_ok (conj src_mcp_write_pinned_ok (conj src_mcp_eject_pinned_ok (conj src_mcp_compile_grammar_pinned_ok (conj src_core_validator_pinned_ok (conj src_schemas_loader_pinned_ok src_core_hydrator_pinned_ok)))))). Qed.
